@@ -4,7 +4,10 @@
     key alphabet) with index_vs_scan deployed as an icontract class invariant (every public method exit) and as explicit walker;
     a reference membership model decides which objects must be in the table; rejected inserts must leave the table untouched.
 (2) MDIB level: provider transactions and consumer report processing that change indexed attributes, walker at quiescent points
-    (see vf.mdibharness; added by run_mdib_level).
+    (c11_mdib).
+(3) round 4 (c11_api): the public read-only lookups are pure and answer like a scan (provider, consumer, over the wire); containers and entities
+    that belong to the application can be changed without the tables noticing; the real table classes of the MDIB under random sequences;
+    the consumer MDIB under irregular reports; the subscription table through its whole life cycle (virtual clock, 4 manager classes).
 """
 from __future__ import annotations
 
@@ -18,10 +21,15 @@ class Obj:
     __slots__ = ('a', 'b', 'c', 'd', 'name', '__weakref__')
 
     def __init__(self, name, a, b, c, d):
-        self.name, self.a, self.b, self.c, self.d = name, a, b, c, d
+        self.name, self.a, self.b, self.c = name, a, b, c
+        if d is not _UNSET:
+            self.d = d  # otherwise reading .d raises AttributeError (like descriptor.Source of everything that is no alert condition)
 
     def __repr__(self):
-        return f'Obj({self.name}, a={self.a!r}, b={self.b!r}, c={self.c!r}, d={self.d!r})'
+        return f'Obj({self.name}, a={self.a!r}, b={self.b!r}, c={self.c!r}, d={getattr(self, "d", "<no attribute>")!r})'
+
+
+_UNSET = object()
 
 
 class InvariantBroken(Exception):
@@ -69,8 +77,11 @@ def _mk_table(rng, variant):
 
 
 def _rand_obj(rng, n, akeys):
-    return Obj(f'o{n}', rng.choice(akeys), rng.choice('xyz'), [rng.choice('pqr') for _ in range(rng.randrange(0, 3))],
-               rng.choice([None, None, 'u', 'v']))
+    # round 4: objects the key functions do not apply to - no attribute d (AttributeError in the key function), c = None (TypeError in the
+    # 1:n index) - are skipped by that index only and must be found by all others (this is how the descriptor table works)
+    return Obj(f'o{n}', rng.choice(akeys), rng.choice('xyz'),
+               None if rng.random() < 0.1 else [rng.choice('pqr') for _ in range(rng.randrange(0, 3))],
+               rng.choice([None, None, 'u', 'v', _UNSET]))
 
 
 def _unique_collision(table, members, obj):
@@ -78,12 +89,18 @@ def _unique_collision(table, members, obj):
     for name, idx in table._idx_defs.items():
         from sdc11073 import multikey
         if isinstance(idx, multikey.UIndexDefinition):
-            k = idx._get_key_func(obj)
+            try:
+                k = idx._get_key_func(obj)
+            except (TypeError, AttributeError):
+                continue  # the index does not apply to this object
             if k is None and not idx._index_none_values:
                 continue
             for m in members:
-                if m is not obj and idx._get_key_func(m) == k:
-                    return True
+                try:
+                    if m is not obj and idx._get_key_func(m) == k:
+                        return True
+                except (TypeError, AttributeError):
+                    pass
     return False
 
 
@@ -174,12 +191,16 @@ def w_tables(ctx: core.Ctx, arg):
                         elif which == 1:
                             o.b = rng.choice('xyz')
                         elif which == 2:
-                            if rng.random() < 0.5:
-                                o.c = [rng.choice('pqr') for _ in range(rng.randrange(0, 3))]
+                            if rng.random() < 0.5 or o.c is None:
+                                o.c = None if rng.random() < 0.1 else [rng.choice('pqr') for _ in range(rng.randrange(0, 3))]
                             else:
                                 o.c.append(rng.choice('pqr'))  # in-place list mutation
                         else:
-                            o.d = rng.choice([None, 'u', 'v'])
+                            v = rng.choice([None, 'u', 'v', _UNSET])
+                            if v is not _UNSET:
+                                o.d = v
+                            elif hasattr(o, 'd'):
+                                del o.d
                     trace.append((op + suffix, [repr(o) for o in objs]))
                     _STATE['dirty'] = 'updating'
                     if op == 'update':
@@ -221,7 +242,7 @@ def w_tables(ctx: core.Ctx, arg):
                 elif op == 'add_index' and 'late' not in table._idx_defs and rng.random() < 0.3:
                     from sdc11073 import multikey
                     trace.append((op,))
-                    table.add_index('late', multikey.IndexDefinition(lambda o: (o.b, o.d)))
+                    table.add_index('late', multikey.IndexDefinition(lambda o: (o.b, getattr(o, 'd', None))))
                     ctx.count('table.add_index_on_filled')
                 elif op == 'query':
                     key = rng.choice('xyz')
@@ -280,14 +301,23 @@ def _classify_trace(trace, how):
 
 
 def run(ctx: core.Ctx):
-    ctx.rule = ('seeded random operation sequences (add / add duplicate key / add same object / attribute change + update_object / remove / '
+    ctx.rule = ('(1) seeded random operation sequences (add / add duplicate key / add same object / attribute change + update_object / remove / '
                 'remove unknown / clear / add_index on filled table / plural + _no_lock variants / lookups) on real MultiKeyLookup tables with '
-                'unique, multi, 1:n and None-skipping indices over 3-6 keys; distinct = (index variant, key alphabet size, set of operation kinds); '
-                'MDIB level: provider/consumer histories with walker at every quiescent point')
+                'unique, multi, 1:n and None-skipping indices over 3-6 keys, incl. objects a key function does not apply to; the same on the real '
+                'DescriptorsLookup / StatesLookup / MultiStatesLookup with real containers; distinct = (index variant | table class, key alphabet '
+                'size, set of operation kinds).  (2) MDIB level: provider/consumer histories over all operation kinds of the shared generator + own '
+                'operations (alert condition/signal create/update/delete, subtree removal, template re-use of application objects), walker at every '
+                'quiescent point, mutation of every container the transaction API handed out, catalogue of all public read-only lookups (purity + '
+                'agreement with a scan) on provider, consumer and over the wire; distinct = sequence of (operation, variant, interface, outcome).  '
+                '(3) consumer MDIB fed with irregular reports (distinct = sequence of (case, outcome)); (4) life cycle of the subscription table '
+                'for the four manager classes under a virtual clock (distinct = sequence of steps)')
+    ctx.assumptions += ['objects obtained from a lookup (stored objects) are not modified by the application; objects handed out by / passed into '
+                        'the provider transaction API are the application\'s own and may be modified by it at any time after the commit',
+                        'a lookup that returns several objects is compared with the scan as a multiset (order is not part of the statement)']
     jobs = [['w_tables', {'i': k, 'n': 320 if ctx.quick else 12500, 'len': 40}] for k in range(16)]
     try:
         from . import c11_mdib  # noqa: F401  (added when the MDIB harness exists)
-        jobs += c11_mdib.jobs(ctx)
+        jobs = c11_mdib.jobs(ctx) + jobs  # the long MDIB histories first
     except ImportError:
         pass
     core.fanout(ctx, MODULE, 'dispatch', jobs)
@@ -297,6 +327,34 @@ def run(ctx: core.Ctx):
     ctx.floor('table.invariant_evaluations', 10000)
     ctx.floor('mdib.walks', 1000)
     ctx.floor('mdib.foreign_grouping.reports', 5)
+    # round 4
+    ctx.floor('mdibtable.walks', 5000)
+    ctx.floor('mdibtable.add.rejected', 100)
+    ctx.floor('mdibtable.add_containers_duplicate', 10)
+    ctx.floor('mdib.queries.provider', 3000)
+    ctx.floor('mdib.queries.consumer', 3000)
+    ctx.floor('mdib.query_oracles', 5000)
+    ctx.floor('mdib.wire_queries', 40)
+    ctx.floor('mdib.handout_mutations', 150)
+    ctx.floor('mdib.entity_mutations', 300)
+    for how in ('get_state', 'get_descriptor', 'get_context_state', 'mk_context_state', 'add_descriptor'):
+        ctx.floor(f'mdib.handout_mutations.{how}', 10)
+    ctx.floor('mdib.template_reuse.directed', 12)
+    for kind in ('context_state', 'single_state', 'descriptor', 'entity'):
+        ctx.floor(f'mdib.template_reuse.{kind}', 6)
+    ctx.floor('mdib.rejected_unique_key_ops', 8)
+    ctx.floor('mdib.own.alert_create', 8)
+    ctx.floor('mdib.own.alert_delete', 4)
+    ctx.floor('mdib.own.subtree_delete', 6)
+    ctx.floor('consumer.reports', 100)
+    for case in ('metric_state_of_unknown_descriptor', 'metric_state_of_other_type', 'context_state_new', 'create_of_known_descriptor_with_children',
+                 'create_descriptor_whose_state_is_already_stored', 'create_alert_conditions_sharing_fresh_sources', 'update_sources_and_condition_signaled',
+                 'update_context_descriptor_with_fewer_states', 'delete_leaf_with_state_listed', 'delete_alert_condition_and_signal'):
+        ctx.floor(f'consumer.reports.{case}', 3)
+    ctx.floor('consumer.reload_all', 3)
+    ctx.floor('subs.walks', 80)
+    ctx.floor('subs.removed_by_housekeeping', 4)
+    ctx.floor('subs.removed_by_expiry', 4)
 
 
 def dispatch(ctx: core.Ctx, job):
